@@ -24,9 +24,14 @@ const twoTxName = "T2 two open transactions define relationships and both commit
 type twoTxCase struct {
 	e1, e2 [2]string // from, to
 	order  string    // "12", "21": commit order; "1-then-2": tx 1 commits before tx 2 defines
+	// del2: transaction 2 deletes the resource e2[0] instead of defining a relationship
+	del2 bool
 }
 
 func (c twoTxCase) String() string {
+	if c.del2 {
+		return fmt.Sprintf("tx1 defines %s->%s, tx2 deletes resource %s, commits %s", c.e1[0], c.e1[1], c.e2[0], c.order)
+	}
 	return fmt.Sprintf("tx1 defines %s->%s, tx2 defines %s->%s, commits %s", c.e1[0], c.e1[1], c.e2[0], c.e2[1], c.order)
 }
 
@@ -41,8 +46,21 @@ func twoTxCases() []twoTxCase {
 						continue
 					}
 					for _, o := range []string{"12", "21", "1-then-2"} {
-						out = append(out, twoTxCase{[2]string{a, b}, [2]string{c, d}, o})
+						out = append(out, twoTxCase{e1: [2]string{a, b}, e2: [2]string{c, d}, order: o})
 					}
+				}
+			}
+		}
+	}
+	// a relationship defined in one transaction while the other deletes one of its endpoints
+	for _, a := range u {
+		for _, b := range u {
+			if a == b {
+				continue
+			}
+			for _, x := range []string{a, b} {
+				for _, o := range []string{"12", "21"} {
+					out = append(out, twoTxCase{e1: [2]string{a, b}, e2: [2]string{x, ""}, order: o, del2: true})
 				}
 			}
 		}
@@ -64,6 +82,9 @@ func runTwoTx(c twoTxCase) error {
 	tx1, tx2 := s.db.OpenTx(), s.db.OpenTx()
 	defer func() { _ = tx1.Close(); _ = tx2.Close() }()
 	def := func(tx gorp.Tx, e [2]string) error {
+		if c.del2 && tx == tx2 {
+			return s.otg.NewWriter(tx).DeleteResource(ctx, pid(e[0]))
+		}
 		return s.otg.NewWriter(tx).DefineRelationship(ctx, pid(e[0]), ontology.RelationshipType("parent"), pid(e[1]))
 	}
 	var d1, d2, c1, c2 error
@@ -124,6 +145,21 @@ func runTwoTx(c twoTxCase) error {
 		if cyc(n, map[string]bool{}) {
 			return vk.Violationf("cycle-committed-by-two-transactions",
 				"%s: define results (%v, %v), commit results (%v, %v); the committed relationships %s contain a cycle", c, d1, d2, c1, c2, strings.Join(es, " "))
+		}
+	}
+	// no committed relationship touches a resource that is gone
+	var ress []ontology.Resource
+	if err := gorp.NewRetrieve[string, ontology.Resource]().Entries(&ress).Exec(ctx, s.db); err != nil {
+		return fmt.Errorf("raw resource scan: %v", err)
+	}
+	have := map[string]bool{}
+	for _, r := range ress {
+		have[r.ID.String()] = true
+	}
+	for _, r := range rels {
+		if !have[r.From.String()] || !have[r.To.String()] {
+			return vk.Violationf("dangling-relationship-committed-by-two-transactions",
+				"%s: results (%v, %v), commit results (%v, %v); the committed relationship %s->%s touches a resource that no longer exists", c, d1, d2, c1, c2, r.From, r.To)
 		}
 	}
 	// an edge that closes no cycle in the committed graph at the time it is defined is never refused
